@@ -90,6 +90,22 @@ def r2(ctx, L):
         acc = [L.blets.get("weight_gradients", (None,))[0], L.blets.get("bias_gradients", (None,))[0]]
         ctx.check("R04.2", "gradient-arguments", [e4.local_hid(a[1]), e4.local_hid(a[2])] == acc and None not in acc, "update-gradient-arguments", c.loc(fn, ups[0]),
                   "update(.., weight_gradients, bias_gradients)")
+    # inside Network::update every parameter group takes its step unconditionally: the optimizer calls are guarded by nothing but the
+    # presence of a bias (`if let Some(..) = ..bias`) - never by a property of the gradient or of the parameters
+    ufn = c.fn("network::Network::update")
+    if ufn is not None:
+        ocalls = [x for x in walk(ufn["body"]) if x.get("k") == "mcall" and x["callee"] == "optimizer::Optimizer::update"]
+        bad_g = []
+        for oc in ocalls:
+            for it_ in e4.path_conditions(c, ufn["body"], oc) or []:
+                cn_ = strip(it_["c"])
+                okc = cn_ is not None and cn_.get("k") == "letx" and it_["pol"] and any(y.get("k") == "field" and y["f"] == "bias" for y in walk(cn_["init"]))
+                if not okc:
+                    bad_g.append(short(pretty(cn_), 60))
+        ctx.check("R04.2", "every-group-steps", bool(ocalls) and not bad_g, "optimizer-step-conditional-on:" + ";".join(sorted(set(bad_g)))[:100], c.loc(ufn),
+                  "%d optimizer.update call sites, none conditional (except on the presence of a bias)" % len(ocalls),
+                  "Network::update skips the optimizer step of a parameter group when %s: stateful optimizers (momentum, Adam moments, decay) must "
+                  "take exactly one step per group for every parameter" % sorted(set(bad_g)))
     it = strip(L.epoch["iter"])
     ok = False
     if it.get("k") == "struct" and it["path"] == "std::ops::Range":
